@@ -3,6 +3,7 @@
 * the keys of the `params` dictionary that DataLoader._read() stores with every cache entry and compares on later
   reads (dict literal + any `params.update({...})` / `params['k'] = ...` before the comparison), via `ast`;
 * whether source_ids=None is replaced by the reader's sampled source identifiers or kept as "no source filter";
+* whether the max_messages index pre-slice is skipped when a source filter or require_p1_time is active;
 * whether the loop's "maximum reached" break is guarded so that it does not fire while the last-N circular buffer is in
   use (structural test on the `if message_count == abs(max_messages)` statement), via `ast`;
 * the message-type tables the function consults: message_type_to_class keys, messages_with_p1_time,
@@ -143,12 +144,43 @@ def none_sources_sampled(f):
     return hits[0]
 
 
+def preslice_guarded(f):
+    """True when the index pre-slice (`reader_max_messages_applied = True`) is only taken with no source filter and
+    without require_p1_time: its `if` test mentions `source_ids is None` and `not require_p1_time`."""
+    hits = []
+    for n in ast.walk(f):
+        if isinstance(n, ast.If) and any(isinstance(b, ast.Assign) and ast.unparse(b) == 'reader_max_messages_applied = True' for b in n.body):
+            t = ast.unparse(n.test)
+            if 'max_messages is not None' not in t or 'require_system_time and system_time_messages_requested' not in t:
+                raise RuntimeError('gen_c12: unrecognised pre-slice condition: %s' % t)
+            extra = t.replace('max_messages is not None', '').replace('self.reader.have_index()', '') \
+                     .replace('not (require_system_time and system_time_messages_requested)', '')
+            g = 'source_ids is None' in extra and 'not require_p1_time' in extra
+            rest = extra.replace('source_ids is None', '').replace('not require_p1_time', '').replace('and', '').replace('(', '').replace(')', '').strip()
+            if rest:
+                raise RuntimeError('gen_c12: pre-slice condition has terms the model does not know: %r' % rest)
+            if not g and ('source_ids' in extra or 'require_p1_time' in extra):
+                raise RuntimeError('gen_c12: partially guarded pre-slice condition: %s' % t)
+            hits.append(g)
+    if len(hits) != 1:
+        raise RuntimeError('gen_c12: expected one pre-slice `if`, found %d' % len(hits))
+    return hits[0]
+
+
 def generate():
     txt = vf.repo_file(SRC)
     f = _read_func(ast.parse(txt))
     keys = params_keys(f)
     guarded = break_guarded(f)
     sampled = none_sources_sampled(f)
+    psg = preslice_guarded(f)
+    # the reader (C10's file): does filter_in_place() intersect explicitly requested source ids with the sampled set?
+    import re
+    rtxt = vf.repo_file('python/fusion_engine_client/parsers/mixed_log_reader.py')
+    m = re.search(r'def filter_in_place\(.*?\n    def ', rtxt, re.S)
+    if not m or 'requested_source_ids' not in m.group(0):
+        raise RuntimeError('gen_c12: MixedLogReader.filter_in_place / requested_source_ids not found')
+    intersects = re.search(r'source_ids\s*=\s*[^\n]*intersection\(self\.available_source_ids\)', m.group(0)) is not None
     rc, so, se = vf.sh([vf.PY, '-c', PROBE], env=vf.IMPL_ENV, timeout=120)
     if rc != 0:
         raise RuntimeError('gen_c12: probing the message registry failed: ' + se[-1500:])
@@ -167,6 +199,8 @@ def generate():
     for k in ('message_types', 'return_numpy', 'keep_messages', 'time_align', 'aligned_message_types'):
         text += 'Definition key_has_%s : bool := %s.\n' % (k, 'true' if k in keys else 'false')
     text += 'Definition break_guarded_by_deque : bool := %s.\n' % ('true' if guarded else 'false')
+    text += 'Definition preslice_guarded_by_read_time_tests : bool := %s.\n' % ('true' if psg else 'false')
+    text += 'Definition reader_intersects_sampled_sources : bool := %s.\n' % ('true' if intersects else 'false')
     text += 'Definition none_sources_sampled : bool := %s.\n' % ('true' if sampled else 'false')
     text += 'Definition all_types : list N := %s.\n' % nl(info['all'])
     text += 'Definition p1_types : list N := %s.\n' % nl(info['p1'])
@@ -177,7 +211,7 @@ def generate():
         info['align']['NONE'], info['align']['DROP'], info['align']['INSERT'])
     text += 'Definition source_probe_count : nat := %d.\n' % int(info['probe'])
     vf.write_if_changed(os.path.join(vf.THEORIES, 'Generated', 'DataLoaderConsts.v'), text)
-    return {'params_keys': keys, 'break_guarded_by_deque': guarded, 'none_sources_sampled': sampled, 'names': info['names'], 'n_types': len(info['all']),
+    return {'params_keys': keys, 'break_guarded_by_deque': guarded, 'none_sources_sampled': sampled, 'preslice_guarded': psg, 'reader_intersects_sampled_sources': intersects, 'names': info['names'], 'n_types': len(info['all']),
             'probe': int(info['probe'])}
 
 
